@@ -115,4 +115,34 @@ mod proofs {
             kani::cover!(m == 2 && d == 29);
         }
     }
+
+    /// K5 (C17): `cgt_format::round_gbp` - the rounding every "£" figure of the text report goes through - on the REAL
+    /// rust_decimal: for every value mantissa/10^scale with a 32-bit mantissa, either sign and scale <= 4, the result is the
+    /// value rounded to pence with midpoints away from zero (integer specification), at scale 2, or the value itself when it
+    /// has at most two decimals.
+    #[kani::proof]
+    #[kani::unwind(12)]
+    fn k5_round_gbp_half_away_from_zero() {
+        use rust_decimal::Decimal;
+        let lo: u32 = kani::any();
+        let scale: u32 = kani::any();
+        let neg: bool = kani::any();
+        kani::assume(scale <= 4);
+        let d = Decimal::from_parts(lo, 0, 0, neg, scale);
+        let r = cgt_format::round_gbp(d);
+        let m = r.mantissa();
+        if scale <= 2 {
+            assert!(r.scale() == scale);
+            assert!(m == if neg { -(lo as i128) } else { lo as i128 });
+        } else {
+            let p: u64 = if scale == 3 { 10 } else { 100 };
+            let q = lo as u64 / p;
+            let rem = lo as u64 % p;
+            let e = (q + if rem * 2 >= p { 1 } else { 0 }) as i128;
+            assert!(r.scale() == 2);
+            assert!(m == if neg { -e } else { e });
+            kani::cover!(rem * 2 == p && neg);
+            kani::cover!(rem * 2 == p && !neg);
+        }
+    }
 }
